@@ -427,8 +427,8 @@ def install(it):
 
     def np_where(it_, ctx, c, *ab):
         if not ab:
-            if isinstance(c, Vec) and all(isinstance(m, bool) for m in c.data):
-                return (Vec([i for i, m in enumerate(c.data) if m]),)
+            if isinstance(c, Vec) and c.ndim == 1:
+                return (Vec([i for i, m in enumerate(c.data) if (m if isinstance(m, bool) else ctx.branch(as_bool(m)))]),)
             if isinstance(c, SymArr):
                 return (WhereIdx(c),)
             raise Unsupported("np.where(cond) on symbolic mask")
@@ -922,6 +922,19 @@ def install(it):
                "h5py", "io", "re", "time", "pkg_resources"):
         it.lib[nm] = ModuleVal(nm, "lib")
     it.lib["logging"].globals["getLogger"] = Builtin("getLogger", lambda *a: Opaque("logger"))
+    h5 = it.lib["h5py"]
+    hv = ModuleVal("h5py.version", "lib")
+    it.lib["h5py.version"] = hv
+    h5.globals["version"] = hv
+    hv.globals["version_tuple"] = (3, 16, 0, None, None, None)
+    hv.globals["version"] = "3.16.0"
+    h5.globals["__version__"] = "3.16.0"
+    h5.globals["File"] = Builtin("h5py.File", lambda *a, **k: (_ for _ in ()).throw(Unsupported("h5py.File (no stub)")))
+    h5.globals["Dataset"] = BuiltinClass("h5py.Dataset", None, lambda x: False)
+    h5.globals["Group"] = BuiltinClass("h5py.Group", None, lambda x: False)
+    h5.globals["special_dtype"] = Builtin("h5py.special_dtype", lambda **k: Opaque("dtype"))
+    dtm = it.lib["datetime"]
+    dtm.globals["datetime"] = Opaque("datetime.datetime")
     it.lib["warnings"].globals["warn"] = Builtin("warn", lambda *a, **k: None)
     it.lib["os"].globals["path"] = it.lib["os.path"]
     cp = ModuleVal("copy", "lib")
